@@ -27,11 +27,12 @@ PROP = dict(
     engines=[dict(hx="hooks")],
     theorems=["C19_order", "C19_reject_not_processed", "C19_error_never_forwarded", "C19_any_auth", "C19_any_acl"],
     model_files="coq/Hooks/Chain.v",
-    rule="6 exhaustive histories (one OnPublish hook answering ErrRejectPacket / CodeSuccessIgnore / a packets.Code / a plain "
-         "error / a success-class code / nil, before or after the ACL hook) x MQTT 3, 3.1.1, 5 x QoS 0-2 x retain, then "
+    rule="18 exhaustive histories (one OnPublish hook answering ErrRejectPacket / CodeSuccessIgnore / a packets.Code / a plain "
+         "error / a success-class code / nil — each error bare, wrapped once and wrapped twice with %w; plus an OnPacketRead "
+         "rejection in the same three shapes — before or after the ACL hook) x MQTT 3, 3.1.1, 5 x QoS 0-2 x retain, then "
          "random histories: stacks of 1-3 scripted hooks + an infra hook at a random position (per hook: optional "
          "auth table, ACL table, OnPacketRead / OnPublish tables topic -> (rename, append byte, set/clear retain, "
-         "result), OnSubscribe table filter -> (filter, qos)), 12-25 operations (connects of p0/p1/q with versions "
+         "result, bare or %w-wrapped once / twice), OnSubscribe table filter -> (filter, qos)), 12-25 operations (connects of p0/p1/q with versions "
          "3/4/5, publishes on 4 topics + $SYS, subscribes of q with 1-2 filters incl. invalid/denied), a probe "
          "subscriber on # and a late subscriber per topic to observe retention; obscure-not-authorized on 1/4; "
          "quick 1200 / thorough 30000 histories.  non-trivial = some OnPublish or OnSubscribe hook was invoked; "
@@ -41,6 +42,9 @@ PROP = dict(
              "ACL, OnPublish result handling, retain, ack, forward), processSubscribe (per-filter codes, creation, "
              "retained replay), publishToClient (read check), attachClient (authenticate step)",
     assumptions=["hooks are deterministic functions of the client id and the packet projection",
+                 "a hook result is its unwrapped class (nil / is ErrRejectPacket / is CodeSuccessIgnore / carries another "
+                 "packets.Code / carries none): Chain.classify looks through %w wrappers as errors.Is / errors.As do "
+                 "(ChainProofs.classify_wrapn); the harness returns every error bare and wrapped",
                  "the publisher has receive quota left and uses a fresh packet identifier (C07/C08/C11 cover the other cases)",
                  "filter validity and matching are the specifications of C30 / C01 (valid_filter_spec, topic_matches)"],
 )
